@@ -1,0 +1,59 @@
+#ifdef ROBSD_VERIF
+#ifndef ROBSD_VERIF_H
+#define ROBSD_VERIF_H
+
+/*
+ * Sync points for external schedulers, compiled in only with -DROBSD_VERIF.
+ *
+ * VERIF_POINT("name"): if the environment variable ROBSD_VERIF_SYNC lists
+ * "name" (comma separated) and ROBSD_VERIF_FIFO names a FIFO, write
+ * "name pid\n" to the FIFO and stop the calling process with SIGSTOP. Whoever
+ * reads the FIFO may then deliver signals or let other processes run and
+ * resumes the process with SIGCONT. Without both variables a point is a no-op.
+ */
+
+#include <errno.h>
+#include <fcntl.h>
+#include <signal.h>
+#include <stdio.h>
+#include <stdlib.h>
+#include <string.h>
+#include <unistd.h>
+
+#define VERIF_POINT(name)	verif_point((name))
+
+static inline void
+verif_point(const char *name)
+{
+	char buf[128];
+	const char *fifo, *p, *sync;
+	size_t namelen = strlen(name);
+	int fd, n, saved_errno = errno;
+
+	sync = getenv("ROBSD_VERIF_SYNC");
+	fifo = getenv("ROBSD_VERIF_FIFO");
+	if (sync == NULL || fifo == NULL)
+		return;
+	for (p = sync; (p = strstr(p, name)) != NULL; p += namelen) {
+		if ((p == sync || p[-1] == ',') &&
+		    (p[namelen] == '\0' || p[namelen] == ','))
+			break;
+	}
+	if (p == NULL)
+		return;
+
+	n = snprintf(buf, sizeof(buf), "%s %ld\n", name, (long)getpid());
+	do {
+		fd = open(fifo, O_WRONLY);
+	} while (fd == -1 && errno == EINTR);
+	if (fd != -1) {
+		if (n > 0 && write(fd, buf, (size_t)n) == -1)
+			n = 0;
+		close(fd);
+	}
+	raise(SIGSTOP);
+	errno = saved_errno;
+}
+
+#endif /* !ROBSD_VERIF_H */
+#endif /* ROBSD_VERIF */
